@@ -394,6 +394,9 @@ struct BatchOut {
     fails: Vec<Fail>,
 }
 
+/// CID flavour with the longest prefix used here (see `block_cid`)
+const LONG_PREFIX: u64 = 0x0129_b220;
+
 /// distinct identifier per (index, size); `code` only labels the 32-byte digest (it decides the prefix length
 /// on the wire: 0x12 -> 4-byte prefix, 0xb220 -> 6-byte prefix)
 fn block_cid(index: usize, size: usize, code: u64) -> Cid {
@@ -401,7 +404,9 @@ fn block_cid(index: usize, size: usize, code: u64) -> Cid {
     h.update(b"c20-block");
     h.update((index as u64).to_le_bytes());
     h.update((size as u64).to_le_bytes());
-    Cid::new_v1(0x55, Multihash::wrap(code, &h.finalize()).expect("32 bytes"))
+    // flavour LONG_PREFIX: dag-json codec (0x0129, 2-byte varint) + blake2b-256 (0xb220, 3-byte varint) = 7-byte prefix
+    let (codec, hash_code) = if code == LONG_PREFIX { (0x0129, 0xb220) } else { (0x55, code) };
+    Cid::new_v1(codec, Multihash::wrap(hash_code, &h.finalize()).expect("32 bytes"))
 }
 
 fn fill_byte(index: usize) -> u8 {
@@ -1125,14 +1130,16 @@ pub fn run(ctx: &mut Ctx) {
     drop(seqs);
 
     // ---------------------------------------------------------------- B3: protobuf overhead of many small blocks
-    // N equal blocks of s bytes (CIDs with a 4-byte sha2-256 prefix and with a 6-byte blake2b-256 prefix),
+    // N equal blocks of s bytes (CIDs with a 4-byte sha2-256 prefix, a 6-byte blake2b-256 prefix and a 7-byte
+    // dag-json/blake2b-256 prefix),
     // N = 2^k ascending until the encoded message first exceeds MAX_MESSAGE_SIZE or the data no longer fits one
     // batch twice over; then the exact smallest N (the encoded size is monotone in N; both N-1 and N evaluated).
     let overhead_grid: Vec<(u64, Vec<usize>)> = tier.pick(
-        vec![(0x12, vec![0, 1, 2, 4, 8, 9, 10, 16]), (0xb220, vec![0, 9, 11, 12, 16])],
+        vec![(0x12, vec![0, 1, 2, 4, 8, 9, 10, 16]), (0xb220, vec![0, 9, 11, 12, 16]), (LONG_PREFIX, vec![0, 11, 12, 13, 16])],
         vec![
             (0x12, vec![0, 1, 2, 3, 4, 5, 6, 7, 8, 9, 10, 11, 12, 16, 32]),
             (0xb220, vec![0, 1, 2, 3, 4, 5, 6, 7, 8, 9, 10, 11, 12, 16, 32]),
+            (LONG_PREFIX, vec![0, 1, 2, 3, 4, 5, 6, 7, 8, 9, 10, 11, 12, 13, 14, 16, 32]),
         ],
     );
     const OVER: &str = "batching/encoded-message-exceeds-limit";
